@@ -458,6 +458,11 @@ def walk(fn, model, start=None, stop=None, follow_loops=False, max_steps=5000, s
                     if end2.startswith('undecided') or end2 == 'loop':
                         undec.append((nid, {'helper %s' % cf.name: 'o'}))
                         return out, 'undecided@%d' % nid, undec
+            if state is not None and state.get('record_calls') and n['k'] == 'CXXMemberCallExpr':
+                try:
+                    state.setdefault('calls', []).append((nid, [ev.ev(a) for a in n.get('args', [])]))
+                except OutOfRange:
+                    state.setdefault('calls', []).append((nid, [None for a in n.get('args', [])]))
             if state is not None and state.get('track') and n['k'] in ('CXXMemberCallExpr', 'CXXOperatorCallExpr'):
                 act = store_action(fn, ev, n, state['track'])
                 if act is not None:
